@@ -2,27 +2,874 @@
 
 package sarama
 
-// Admin side of the simulated cluster (C19).
+// Admin side of the simulated cluster (C19): the controller's topic operations
+// (create / delete topics, create partitions, alter / list partition
+// reassignments), the leader's DeleteRecords, the coordinator's DescribeGroups /
+// ListGroups / DeleteGroups and the per-broker DescribeLogDirs. Every request is
+// logged as a VSimEvent of kind "admin" carrying a VSimAdminEvent: who received
+// it, whether that broker was the controller / leader / coordinator at that
+// moment, and what it answered per item. Effects are applied to the cluster
+// state exactly when the answer for the item is NONE (and the request is not
+// validate-only), so "state changed iff success reported" can be checked.
+
+import (
+	"fmt"
+	"sort"
+	"time"
+)
+
+type vsReassign struct {
+	target   []int32
+	adding   []int32
+	removing []int32
+}
 
 type vsAdminState struct {
 	apiCounts map[int16]int
 	nBatch    int
+
+	kindCounts  map[string]int
+	reassign    map[string]*vsReassign // "topic/partition" -> reassignment in progress
+	knownGroups map[string]string      // group -> protocol type: exists even without members or offsets
 }
 
-func (a *vsAdminState) init() { a.apiCounts = map[int16]int{} }
+func (a *vsAdminState) init() {
+	a.apiCounts = map[int16]int{}
+	a.kindCounts = map[string]int{}
+	a.reassign = map[string]*vsReassign{}
+	a.knownGroups = map[string]string{}
+}
 
+// VSimAdminCtx describes an admin request as it arrives (before any effect).
 type VSimAdminCtx struct {
-	Seq    int64
-	Kind   string
-	N      int
-	Broker int32
+	Seq          int64
+	Kind         string // create-topics | delete-topics | create-partitions | alter-reassignments | list-reassignments | delete-records | describe-groups | list-groups | delete-groups | describe-log-dirs
+	N            int    // n-th request of this kind cluster-wide (1-based)
+	Broker       int32
+	Conn         int64
+	Version      int16
+	Items        []string // topics, "topic/partition", groups, or the broker id (describe-log-dirs); sorted
+	Controller   int32    // the controller at arrival
+	IsController bool
+	ValidateOnly bool
 }
 
+const (
+	VAProceed    = iota
+	VAError      // answer Code without effect: at top level where the response has a top-level code (alter / list reassignments, list-groups), else for every item
+	VAItemErrors // ItemCodes[item] is answered for the named items without effect; the others are handled normally
+	VAOmit       // the items in Omit (nil = all) are left out of the answer, without effect; delete-records: a topic name omits the whole topic
+	VADropBefore // close the connection without handling
+	VADropAfter  // handle, then close the connection without answering
+)
+
+// VSimAdminAction is what the broker does with an admin request. MoveTo != 0
+// moves the controller to that broker BEFORE the request is handled (so the
+// receiving broker answers NOT_CONTROLLER if it is not MoveTo).
 type VSimAdminAction struct {
-	Kind int
-	Code KError
+	Kind      int
+	Code      KError
+	ItemCodes map[string]KError
+	Omit      []string
+	MoveTo    int32
+	DelayMs   int
 }
+
+// VSimAdminEvent is one admin request with the answer it got.
+type VSimAdminEvent struct {
+	Seq                 int64
+	Kind                string
+	N                   int
+	Broker              int32
+	Conn                int64
+	Version             int16
+	Items               []string
+	ControllerAtArrival int32
+	Controller          int32            // when handled (after the action's move)
+	WasController       bool             // Broker == Controller when handled
+	Owner               map[string]int32 // leader / coordinator of each item when handled (-1 = none / unknown item)
+	Action              int
+	HasTop              bool  // the response type has a top-level code
+	Top                 int16 // top-level code answered
+	ItemCodes           map[string]int16
+	Omitted             []string
+	Applied             []string // items whose effect was applied to the cluster state
+	ValidateOnly        bool
+	Dropped             bool
+	Args                map[string]int64 // per item argument: delete-records offset, create-partitions count, create-topics partitions
+	Result              map[string]int64 // delete-records: low watermark answered
+}
+
+func (s *VSim) adminEvent(ev *VSimAdminEvent) {
+	ev.Seq = s.logEvent("admin", ev.Broker, ev.Conn, map[string]interface{}{"a": *ev})
+}
+
+// AdminEvents returns the broker-side history of admin requests.
+func (s *VSim) AdminEvents() []VSimAdminEvent {
+	s.mu.Lock()
+	defer s.mu.Unlock()
+	var out []VSimAdminEvent
+	for _, e := range s.events {
+		if e.Kind == "admin" {
+			a := e.Info["a"].(VSimAdminEvent)
+			a.Seq = e.Seq
+			out = append(out, a)
+		}
+	}
+	return out
+}
+
+// ---------------------------------------------------------------- state accessors
+
+func (s *VSim) Controller() int32 {
+	s.mu.Lock()
+	defer s.mu.Unlock()
+	return s.controller
+}
+
+// TopicPartitions returns whether the topic exists and how many partitions it has.
+func (s *VSim) TopicPartitions(name string) (bool, int) {
+	s.mu.Lock()
+	defer s.mu.Unlock()
+	t := s.topics[name]
+	if t == nil {
+		return false, 0
+	}
+	return true, len(t.parts)
+}
+
+func (s *VSim) Replicas(topic string, part int32) []int32 {
+	s.mu.Lock()
+	defer s.mu.Unlock()
+	if t := s.topics[topic]; t != nil {
+		if p := t.parts[part]; p != nil {
+			return append([]int32(nil), p.replicas...)
+		}
+	}
+	return nil
+}
+
+// LogStart returns the partition's low watermark (log start offset) and its high watermark.
+func (s *VSim) LogStart(topic string, part int32) (int64, int64) {
+	s.mu.Lock()
+	defer s.mu.Unlock()
+	if t := s.topics[topic]; t != nil {
+		if p := t.parts[part]; p != nil {
+			return p.logStart, p.base + int64(len(p.log))
+		}
+	}
+	return -1, -1
+}
+
+// CreateGroup makes a group exist (Empty, no offsets) on the given coordinator.
+func (s *VSim) CreateGroup(name string, coordinator int32, protocolType string) {
+	s.mu.Lock()
+	g := s.groupLocked(name)
+	g.coordinator = coordinator
+	s.admin.knownGroups[name] = protocolType
+	s.mu.Unlock()
+}
+
+func (s *VSim) groupExistsLocked(name string) bool {
+	g := s.groups[name]
+	if g == nil {
+		return false
+	}
+	if _, ok := s.admin.knownGroups[name]; ok {
+		return true
+	}
+	return len(g.members) > 0 || len(g.offsets) > 0
+}
+
+func (s *VSim) GroupExists(name string) bool {
+	s.mu.Lock()
+	defer s.mu.Unlock()
+	return s.groupExistsLocked(name)
+}
+
+// SetReassignment puts a partition into "being reassigned to target" (as a
+// successful AlterPartitionReassignments would).
+func (s *VSim) SetReassignment(topic string, part int32, target []int32) {
+	s.mu.Lock()
+	defer s.mu.Unlock()
+	t := s.topics[topic]
+	if t == nil || t.parts[part] == nil {
+		return
+	}
+	p := t.parts[part]
+	ra := &vsReassign{target: append([]int32(nil), target...)}
+	for _, x := range target {
+		if !vsHas(p.replicas, x) {
+			ra.adding = append(ra.adding, x)
+		}
+	}
+	for _, x := range p.replicas {
+		if !vsHas(target, x) {
+			ra.removing = append(ra.removing, x)
+		}
+	}
+	s.admin.reassign[vsTP(topic, part)] = ra
+}
+
+// CompleteReassignments finishes every reassignment in progress.
+func (s *VSim) CompleteReassignments() {
+	s.mu.Lock()
+	s.admin.reassign = map[string]*vsReassign{}
+	s.mu.Unlock()
+}
+
+// ---------------------------------------------------------------- dispatch
+
+func vsSortedKeys(m map[string]bool) []string {
+	out := make([]string, 0, len(m))
+	for k := range m {
+		out = append(out, k)
+	}
+	sort.Strings(out)
+	return out
+}
+
+func vsTP(t string, p int32) string { return fmt.Sprintf("%s/%d", t, p) }
 
 func (s *VSim) dispatchAdmin(b *VSimBroker, connID int64, ctx *VSimReqCtx, req *request) (*vsResponse, int, bool) {
-	return nil, 0, false
+	ac := &VSimAdminCtx{Seq: ctx.Seq, Broker: b.ID, Conn: connID, Version: ctx.Version}
+	items := map[string]bool{}
+	args := map[string]int64{}
+	switch r := req.body.(type) {
+	case *CreateTopicsRequest:
+		ac.Kind, ac.ValidateOnly = "create-topics", r.ValidateOnly
+		for t, d := range r.TopicDetails {
+			items[t] = true
+			if d != nil {
+				args[t] = int64(d.NumPartitions)
+			}
+		}
+	case *DeleteTopicsRequest:
+		ac.Kind = "delete-topics"
+		for _, t := range r.Topics {
+			items[t] = true
+		}
+	case *CreatePartitionsRequest:
+		ac.Kind, ac.ValidateOnly = "create-partitions", r.ValidateOnly
+		for t, tp := range r.TopicPartitions {
+			items[t] = true
+			if tp != nil {
+				args[t] = int64(tp.Count)
+			}
+		}
+	case *AlterPartitionReassignmentsRequest:
+		ac.Kind = "alter-reassignments"
+		for t, ps := range r.blocks {
+			for p := range ps {
+				items[vsTP(t, p)] = true
+			}
+		}
+	case *ListPartitionReassignmentsRequest:
+		ac.Kind = "list-reassignments"
+		for t, ps := range r.blocks {
+			for _, p := range ps {
+				items[vsTP(t, p)] = true
+			}
+		}
+	case *DeleteRecordsRequest:
+		ac.Kind = "delete-records"
+		for t, dt := range r.Topics {
+			if dt == nil {
+				continue
+			}
+			for p, off := range dt.PartitionOffsets {
+				items[vsTP(t, p)] = true
+				args[vsTP(t, p)] = off
+			}
+		}
+	case *DescribeGroupsRequest:
+		ac.Kind = "describe-groups"
+		for _, g := range r.Groups {
+			items[g] = true
+		}
+	case *ListGroupsRequest:
+		ac.Kind = "list-groups"
+	case *DeleteGroupsRequest:
+		ac.Kind = "delete-groups"
+		for _, g := range r.Groups {
+			items[g] = true
+		}
+	case *DescribeLogDirsRequest:
+		ac.Kind = "describe-log-dirs"
+		items[fmt.Sprint(b.ID)] = true
+	default:
+		return nil, 0, false
+	}
+	ac.Items = vsSortedKeys(items)
+	s.mu.Lock()
+	s.admin.kindCounts[ac.Kind]++
+	ac.N = s.admin.kindCounts[ac.Kind]
+	ac.Controller = s.controller
+	ac.IsController = s.controller == b.ID
+	s.mu.Unlock()
+
+	act := VSimAdminAction{}
+	if s.OnAdmin != nil {
+		act = s.OnAdmin(ac)
+	}
+	if act.DelayMs > 0 {
+		time.Sleep(time.Duration(act.DelayMs) * time.Millisecond)
+	}
+	ev := &VSimAdminEvent{Kind: ac.Kind, N: ac.N, Broker: b.ID, Conn: connID, Version: ctx.Version, Items: ac.Items,
+		ControllerAtArrival: ac.Controller, Action: act.Kind, ValidateOnly: ac.ValidateOnly,
+		Owner: map[string]int32{}, ItemCodes: map[string]int16{}, Args: args, Result: map[string]int64{}}
+
+	s.mu.Lock()
+	defer s.mu.Unlock()
+	if act.MoveTo != 0 {
+		s.controller = act.MoveTo
+		s.logEvent("controller-moved", act.MoveTo, 0, map[string]interface{}{"from": ac.Controller, "on": ac.Kind, "n": ac.N})
+	}
+	ev.Controller = s.controller
+	ev.WasController = s.controller == b.ID
+	if act.Kind == VADropBefore {
+		ev.Dropped = true
+		s.adminEvent(ev)
+		return nil, VConnDropAfter, true
+	}
+	resp := s.handleAdminLocked(b, act, ev, req)
+	if act.Kind == VADropAfter {
+		ev.Dropped = true
+		s.adminEvent(ev)
+		return nil, VConnDropAfter, true
+	}
+	s.adminEvent(ev)
+	return resp, VConnProceed, true
+}
+
+// vsAdminPick decides what the action says about one item: (code, forced, omitted).
+func vsAdminPick(act VSimAdminAction, item string, perItemError bool) (KError, bool, bool) {
+	switch act.Kind {
+	case VAError:
+		if perItemError {
+			return act.Code, true, false
+		}
+	case VAItemErrors:
+		if c, ok := act.ItemCodes[item]; ok {
+			return c, true, false
+		}
+	case VAOmit:
+		if act.Omit == nil {
+			return 0, false, true
+		}
+		for _, o := range act.Omit {
+			if o == item {
+				return 0, false, true
+			}
+		}
+	}
+	return ErrNoError, false, false
+}
+
+func vsErrMsg(code KError) *string {
+	if code == ErrNoError {
+		return nil
+	}
+	m := "vsim: " + code.Error()
+	return &m
+}
+
+func (s *VSim) newPartitionLocked(leader int32, replicas []int32) *vsPartition {
+	if len(replicas) == 0 {
+		replicas = []int32{leader}
+	}
+	return &vsPartition{leader: leader, replicas: append([]int32(nil), replicas...), isr: append([]int32(nil), replicas...), pstate: map[int64]*vsProducerState{}, lso: -1}
+}
+
+func (s *VSim) knownBrokersLocked(ids []int32) bool {
+	for _, id := range ids {
+		if s.brokers[id] == nil {
+			return false
+		}
+	}
+	return true
+}
+
+func (s *VSim) handleAdminLocked(b *VSimBroker, act VSimAdminAction, ev *VSimAdminEvent, req *request) *vsResponse {
+	ids := s.brokerIDsLocked()
+	record := func(item string, code KError) {
+		ev.ItemCodes[item] = int16(code)
+	}
+	switch r := req.body.(type) {
+	case *CreateTopicsRequest:
+		res := &CreateTopicsResponse{Version: ev.Version, TopicErrors: map[string]*TopicError{}}
+		for _, name := range ev.Items {
+			d := r.TopicDetails[name]
+			code, forced, omitted := vsAdminPick(act, name, true)
+			if omitted {
+				ev.Omitted = append(ev.Omitted, name)
+				continue
+			}
+			switch {
+			case !ev.WasController:
+				code = ErrNotController
+			case forced:
+			case name == "":
+				code = ErrInvalidTopic
+			case s.topics[name] != nil:
+				code = ErrTopicAlreadyExists
+			case d == nil:
+				code = ErrInvalidRequest
+			case len(d.ReplicaAssignment) > 0 && (d.NumPartitions != -1 || d.ReplicationFactor != -1):
+				code = ErrInvalidRequest
+			case len(d.ReplicaAssignment) == 0 && d.NumPartitions <= 0:
+				code = ErrInvalidPartitions
+			case len(d.ReplicaAssignment) == 0 && (d.ReplicationFactor <= 0 || int(d.ReplicationFactor) > len(ids)):
+				code = ErrInvalidReplicationFactor
+			}
+			if code == ErrNoError && len(d.ReplicaAssignment) > 0 {
+				for p := 0; p < len(d.ReplicaAssignment); p++ {
+					reps, ok := d.ReplicaAssignment[int32(p)]
+					if !ok || len(reps) == 0 || !s.knownBrokersLocked(reps) {
+						code = ErrInvalidReplicaAssignment
+					}
+				}
+			}
+			if code == ErrNoError && !r.ValidateOnly {
+				t := &vsTopic{parts: map[int32]*vsPartition{}}
+				if len(d.ReplicaAssignment) > 0 {
+					for p, reps := range d.ReplicaAssignment {
+						t.parts[p] = s.newPartitionLocked(reps[0], reps)
+					}
+				} else {
+					for p := 0; p < int(d.NumPartitions); p++ {
+						var reps []int32
+						for k := 0; k < int(d.ReplicationFactor); k++ {
+							reps = append(reps, ids[(p+k)%len(ids)])
+						}
+						t.parts[int32(p)] = s.newPartitionLocked(reps[0], reps)
+					}
+				}
+				s.topics[name] = t
+				ev.Applied = append(ev.Applied, name)
+			}
+			record(name, code)
+			te := &TopicError{Err: code}
+			if ev.Version >= 1 {
+				te.ErrMsg = vsErrMsg(code)
+			}
+			res.TopicErrors[name] = te
+		}
+		return vsTyped(res)
+
+	case *DeleteTopicsRequest:
+		res := &DeleteTopicsResponse{Version: ev.Version, TopicErrorCodes: map[string]KError{}}
+		for _, name := range ev.Items {
+			code, forced, omitted := vsAdminPick(act, name, true)
+			if omitted {
+				ev.Omitted = append(ev.Omitted, name)
+				continue
+			}
+			switch {
+			case !ev.WasController:
+				code = ErrNotController
+			case forced:
+			case s.topics[name] == nil:
+				code = ErrUnknownTopicOrPartition
+			}
+			if code == ErrNoError {
+				delete(s.topics, name)
+				for k := range s.admin.reassign {
+					if len(k) > len(name) && k[:len(name)+1] == name+"/" {
+						delete(s.admin.reassign, k)
+					}
+				}
+				ev.Applied = append(ev.Applied, name)
+			}
+			record(name, code)
+			res.TopicErrorCodes[name] = code
+		}
+		return vsTyped(res)
+
+	case *CreatePartitionsRequest:
+		res := &CreatePartitionsResponse{TopicPartitionErrors: map[string]*TopicPartitionError{}}
+		for _, name := range ev.Items {
+			tp := r.TopicPartitions[name]
+			code, forced, omitted := vsAdminPick(act, name, true)
+			if omitted {
+				ev.Omitted = append(ev.Omitted, name)
+				continue
+			}
+			t := s.topics[name]
+			switch {
+			case !ev.WasController:
+				code = ErrNotController
+			case forced:
+			case t == nil:
+				code = ErrUnknownTopicOrPartition
+			case tp == nil:
+				code = ErrInvalidRequest
+			case int(tp.Count) <= len(t.parts):
+				code = ErrInvalidPartitions
+			case len(tp.Assignment) > 0 && len(tp.Assignment) != int(tp.Count)-len(t.parts):
+				code = ErrInvalidReplicaAssignment
+			}
+			if code == ErrNoError {
+				for _, reps := range tp.Assignment {
+					if len(reps) == 0 || !s.knownBrokersLocked(reps) {
+						code = ErrInvalidReplicaAssignment
+					}
+				}
+			}
+			if code == ErrNoError && !r.ValidateOnly {
+				have := len(t.parts)
+				for p := have; p < int(tp.Count); p++ {
+					reps := []int32{ids[p%len(ids)]}
+					if len(tp.Assignment) > 0 {
+						reps = tp.Assignment[p-have]
+					}
+					t.parts[int32(p)] = s.newPartitionLocked(reps[0], reps)
+				}
+				ev.Applied = append(ev.Applied, name)
+			}
+			record(name, code)
+			res.TopicPartitionErrors[name] = &TopicPartitionError{Err: code, ErrMsg: vsErrMsg(code)}
+		}
+		return vsTyped(res)
+
+	case *AlterPartitionReassignmentsRequest:
+		res := &AlterPartitionReassignmentsResponse{Version: ev.Version}
+		ev.HasTop = true
+		top := ErrNoError
+		switch {
+		case !ev.WasController:
+			top = ErrNotController
+		case act.Kind == VAError:
+			top = act.Code
+		}
+		if top != ErrNoError {
+			ev.Top = int16(top)
+			res.ErrorCode = top
+			res.ErrorMessage = vsErrMsg(top)
+			return vsTyped(res)
+		}
+		for _, item := range ev.Items {
+			var topic string
+			var part int32
+			vsSplitTP(item, &topic, &part)
+			code, forced, omitted := vsAdminPick(act, item, false)
+			if omitted {
+				ev.Omitted = append(ev.Omitted, item)
+				continue
+			}
+			blk := r.blocks[topic][part]
+			var p *vsPartition
+			if t := s.topics[topic]; t != nil {
+				p = t.parts[part]
+			}
+			switch {
+			case forced:
+			case p == nil:
+				code = ErrUnknownTopicOrPartition
+			case blk == nil || blk.replicas == nil:
+				if s.admin.reassign[item] == nil {
+					code = ErrNoReassignmentInProgress
+				}
+			case len(blk.replicas) == 0 || !s.knownBrokersLocked(blk.replicas) || vsHasDup(blk.replicas):
+				code = ErrInvalidReplicaAssignment
+			}
+			if code == ErrNoError {
+				if blk == nil || blk.replicas == nil {
+					delete(s.admin.reassign, item)
+				} else {
+					old := p.replicas
+					ra := &vsReassign{target: append([]int32(nil), blk.replicas...)}
+					for _, x := range blk.replicas {
+						if !vsHas(old, x) {
+							ra.adding = append(ra.adding, x)
+						}
+					}
+					for _, x := range old {
+						if !vsHas(blk.replicas, x) {
+							ra.removing = append(ra.removing, x)
+						}
+					}
+					s.admin.reassign[item] = ra
+					p.replicas = append([]int32(nil), blk.replicas...)
+					p.isr = append([]int32(nil), blk.replicas...)
+					if !vsHas(p.replicas, p.leader) {
+						p.leader = p.replicas[0]
+					}
+				}
+				ev.Applied = append(ev.Applied, item)
+			}
+			record(item, code)
+			res.AddError(topic, part, code, vsErrMsg(code))
+		}
+		return vsTyped(res)
+
+	case *ListPartitionReassignmentsRequest:
+		res := &ListPartitionReassignmentsResponse{Version: ev.Version}
+		ev.HasTop = true
+		top := ErrNoError
+		switch {
+		case !ev.WasController:
+			top = ErrNotController
+		case act.Kind == VAError:
+			top = act.Code
+		}
+		if top != ErrNoError {
+			ev.Top = int16(top)
+			res.ErrorCode = top
+			res.ErrorMessage = vsErrMsg(top)
+			return vsTyped(res)
+		}
+		for _, item := range ev.Items {
+			var topic string
+			var part int32
+			vsSplitTP(item, &topic, &part)
+			_, _, omitted := vsAdminPick(act, item, false)
+			if omitted {
+				ev.Omitted = append(ev.Omitted, item)
+				continue
+			}
+			ra := s.admin.reassign[item]
+			if ra == nil {
+				continue // only partitions being reassigned are listed
+			}
+			record(item, ErrNoError)
+			all := append([]int32(nil), ra.target...)
+			all = append(all, ra.removing...)
+			res.AddBlock(topic, part, all, append([]int32{}, ra.adding...), append([]int32{}, ra.removing...))
+		}
+		return vsTyped(res)
+
+	case *DeleteRecordsRequest:
+		res := &DeleteRecordsResponse{Topics: map[string]*DeleteRecordsResponseTopic{}}
+		for _, item := range ev.Items {
+			var topic string
+			var part int32
+			vsSplitTP(item, &topic, &part)
+			var p *vsPartition
+			if t := s.topics[topic]; t != nil {
+				p = t.parts[part]
+			}
+			ev.Owner[item] = -1
+			if p != nil {
+				ev.Owner[item] = p.leader
+			}
+			code, forced, omitted := vsAdminPick(act, item, true)
+			if _, _, topicOmitted := vsAdminPick(act, topic, true); topicOmitted {
+				omitted = true
+			}
+			if omitted {
+				ev.Omitted = append(ev.Omitted, item)
+				continue
+			}
+			off := ev.Args[item]
+			lwm := int64(-1)
+			switch {
+			case forced:
+			case p == nil:
+				code = ErrUnknownTopicOrPartition
+			case p.leader != b.ID:
+				code = ErrNotLeaderForPartition
+			default:
+				hw := p.base + int64(len(p.log))
+				if off == -1 {
+					off = hw
+				}
+				if off < 0 || off > hw {
+					code = ErrOffsetOutOfRange
+				} else {
+					if off > p.logStart {
+						p.logStart = off
+					}
+					lwm = p.logStart
+					ev.Applied = append(ev.Applied, item)
+				}
+			}
+			record(item, code)
+			ev.Result[item] = lwm
+			rt := res.Topics[topic]
+			if rt == nil {
+				rt = &DeleteRecordsResponseTopic{Partitions: map[int32]*DeleteRecordsResponsePartition{}}
+				res.Topics[topic] = rt
+			}
+			rt.Partitions[part] = &DeleteRecordsResponsePartition{LowWatermark: lwm, Err: code}
+		}
+		return vsTyped(res)
+
+	case *DescribeGroupsRequest:
+		res := &DescribeGroupsResponse{}
+		for _, name := range ev.Items {
+			g := s.groupLocked(name)
+			ev.Owner[name] = g.coordinator
+			code, forced, omitted := vsAdminPick(act, name, true)
+			if omitted {
+				ev.Omitted = append(ev.Omitted, name)
+				continue
+			}
+			if !forced && g.coordinator != b.ID {
+				code = ErrNotCoordinatorForConsumer
+			}
+			gd := &GroupDescription{Err: code, GroupId: name}
+			if code == ErrNoError {
+				if !s.groupExistsLocked(name) {
+					gd.State = "Dead"
+				} else {
+					gd.State = g.state
+					gd.ProtocolType = s.admin.knownGroups[name]
+					if gd.ProtocolType == "" {
+						gd.ProtocolType = "consumer"
+					}
+					gd.Protocol = g.protocol
+					gd.Members = map[string]*GroupMemberDescription{}
+					for id, m := range g.members {
+						gd.Members[id] = &GroupMemberDescription{ClientId: "client", ClientHost: "/vsim", MemberMetadata: m.metadata, MemberAssignment: g.assignments[id]}
+					}
+				}
+			}
+			record(name, code)
+			res.Groups = append(res.Groups, gd)
+		}
+		return vsTyped(res)
+
+	case *ListGroupsRequest:
+		res := &ListGroupsResponse{Groups: map[string]string{}}
+		ev.HasTop = true
+		if act.Kind == VAError {
+			res.Err = act.Code
+			ev.Top = int16(act.Code)
+			return vsTyped(res)
+		}
+		for name, g := range s.groups {
+			if g.coordinator == b.ID && s.groupExistsLocked(name) {
+				pt := s.admin.knownGroups[name]
+				if pt == "" {
+					pt = "consumer"
+				}
+				res.Groups[name] = pt
+				ev.Applied = append(ev.Applied, name)
+			}
+		}
+		sort.Strings(ev.Applied)
+		return vsTyped(res)
+
+	case *DeleteGroupsRequest:
+		res := &DeleteGroupsResponse{GroupErrorCodes: map[string]KError{}}
+		for _, name := range ev.Items {
+			g := s.groupLocked(name)
+			ev.Owner[name] = g.coordinator
+			code, forced, omitted := vsAdminPick(act, name, true)
+			if omitted {
+				ev.Omitted = append(ev.Omitted, name)
+				continue
+			}
+			switch {
+			case forced:
+			case g.coordinator != b.ID:
+				code = ErrNotCoordinatorForConsumer
+			case !s.groupExistsLocked(name):
+				code = ErrGroupIDNotFound
+			case len(g.members) > 0:
+				code = ErrNonEmptyGroup
+			}
+			if code == ErrNoError {
+				g.offsets = map[string]*vsOffset{}
+				g.assignments = map[string][]byte{}
+				g.generation = 0
+				g.state = "Empty"
+				delete(s.admin.knownGroups, name)
+				ev.Applied = append(ev.Applied, name)
+			}
+			record(name, code)
+			res.GroupErrorCodes[name] = code
+		}
+		return vsTyped(res)
+
+	case *DescribeLogDirsRequest:
+		res := &DescribeLogDirsResponse{Version: ev.Version}
+		item := fmt.Sprint(b.ID)
+		ev.Owner[item] = b.ID
+		code, _, omitted := vsAdminPick(act, item, true)
+		if omitted {
+			ev.Omitted = append(ev.Omitted, item)
+			return vsTyped(res)
+		}
+		record(item, code)
+		dir := DescribeLogDirsResponseDirMetadata{ErrorCode: code, Path: fmt.Sprintf("/vsim/broker-%d/logs", b.ID)}
+		if code == ErrNoError {
+			want := map[string]map[int32]bool{}
+			for _, dt := range r.DescribeTopics {
+				want[dt.Topic] = map[int32]bool{}
+				for _, p := range dt.PartitionIDs {
+					want[dt.Topic][p] = true
+				}
+			}
+			names := make([]string, 0, len(s.topics))
+			for name := range s.topics {
+				names = append(names, name)
+			}
+			sort.Strings(names)
+			for _, name := range names {
+				if len(want) > 0 && want[name] == nil {
+					continue
+				}
+				t := s.topics[name]
+				pids := make([]int, 0, len(t.parts))
+				for id := range t.parts {
+					pids = append(pids, int(id))
+				}
+				sort.Ints(pids)
+				var parts []DescribeLogDirsResponsePartition
+				for _, pi := range pids {
+					p := t.parts[int32(pi)]
+					if !vsHas(p.replicas, b.ID) && p.leader != b.ID {
+						continue
+					}
+					if len(want) > 0 && !want[name][int32(pi)] {
+						continue
+					}
+					parts = append(parts, DescribeLogDirsResponsePartition{PartitionID: int32(pi), Size: int64(len(p.log)) * 100})
+				}
+				if len(parts) > 0 {
+					dir.Topics = append(dir.Topics, DescribeLogDirsResponseTopic{Topic: name, Partitions: parts})
+				}
+			}
+		}
+		res.LogDirs = []DescribeLogDirsResponseDirMetadata{dir}
+		return vsTyped(res)
+	}
+	return nil
+}
+
+func vsHas(xs []int32, x int32) bool {
+	for _, y := range xs {
+		if y == x {
+			return true
+		}
+	}
+	return false
+}
+
+func vsHasDup(xs []int32) bool {
+	for i := range xs {
+		for j := i + 1; j < len(xs); j++ {
+			if xs[i] == xs[j] {
+				return true
+			}
+		}
+	}
+	return false
+}
+
+// vsSplitTP splits "topic/partition" at the LAST slash.
+func vsSplitTP(item string, topic *string, part *int32) {
+	for i := len(item) - 1; i >= 0; i-- {
+		if item[i] == '/' {
+			*topic = item[:i]
+			var n int32
+			fmt.Sscanf(item[i+1:], "%d", &n)
+			*part = n
+			return
+		}
+	}
+	*topic = item
+	*part = -1
 }
